@@ -10,6 +10,10 @@ cplxfir   FIR filters with complex coefficients (including unit-modulus ones
 bankmut   a CascadeFilter / ParallelFilter (a list) is used once, then changed
           IN PLACE (item assignment, append, insert, del, +=): its response
           must be the product / sum over its CURRENT parts
+bankshare a bank that holds the SAME filter object (or equal but distinct
+          objects) at several positions: every position counts, the response
+          is the product / sum over positions, not over distinct parts
+          (sixth round of seeded changes)
 """
 import cmath
 import itertools
@@ -17,7 +21,7 @@ import math
 
 from audiolazy import ZFilter, dft, CascadeFilter, ParallelFilter
 
-KINDS = ("mutate", "cplxfir", "bankmut")
+KINDS = ("mutate", "cplxfir", "bankmut", "bankshare")
 CPLX = [1j, -1j, 1, -1, 1 + 1j, 2 - 1j, 0.6 + 0.8j, -0.8 + 0.6j, 0.5j, 3, -2j,
         (3 + 4j) / 5, 2.5, -0.5 - 0.5j, 0.28 + 0.96j]
 
@@ -43,6 +47,13 @@ def cases(ctx):
            rng.choice([1, 1, 2, -1, 1j]))
   for c in bank_cases(ctx):
     yield c
+  for _ in ctx.loop(800, 40000):
+    pool = [rpart(rng) for _ in range(rng.randint(1, 3))]
+    yield ("bankshare", rng.choice(["C", "P"]), pool,
+           [rng.randrange(len(pool)) for _ in range(rng.randint(2, 5))],
+           rng.choice(["same-object", "same-object", "equal-objects"]),
+           [rng.choice([0.0, math.pi, rng.uniform(0.05, 6.2)])
+            for _ in range(3)])
 
 
 def rpart(rng):
@@ -171,9 +182,39 @@ def close(ctx, name, got, want, scale):
   return err <= tol
 
 
+def run_share(ctx, case):
+  _, tag, pool, layout, how, ws = case
+  cls = CascadeFilter if tag == "C" else ParallelFilter
+  pre = "cascade" if tag == "C" else "parallel"
+  objs = [ZFilter(list(b), list(a)) for b, a in pool]
+  if how == "same-object":
+    bank = cls(*[objs[k] for k in layout])
+  else:
+    bank = cls(*[ZFilter(list(pool[k][0]), list(pool[k][1])) for k in layout])
+  parts = [pool[k] for k in layout]
+  repeated = len(set(layout)) < len(layout)
+  done = False
+  for w in ws:
+    ref = bank_ref(tag, parts, w)
+    if ref is None:
+      continue
+    got = bank.freq_response(w)
+    done = True
+    ctx.count("bankshare:" + how)
+    if repeated:
+      ctx.count("bankshare:repeated-part:" + pre)
+    if not close(ctx, "bank:share", got, ref[0], ref[1]):
+      ctx.violation("bankshare/%s-response-is-not-over-every-position" % pre,
+                    case, w=w, got=repr(got), want=repr(ref[0]), how=how)
+      return True
+  return done
+
+
 def run_case(ctx, case):
   if case[0] == "bankmut":
     return run_bank(ctx, case)
+  if case[0] == "bankshare":
+    return run_share(ctx, case)
   if case[0] == "mutate":
     _, b, a, w, which, idx, newc = case
     filt = ZFilter(list(b), list(a))
@@ -254,6 +295,10 @@ def finish(ctx):
   ctx.need("complex-unit-modulus-tap", 100)
   ctx.need("bank-response-after-in-place-change", 500)
   ctx.need("empty-bank-response", 20)
+  ctx.need("bankshare:same-object", 300)
+  ctx.need("bankshare:equal-objects", 150)
+  ctx.need("bankshare:repeated-part:cascade", 150)
+  ctx.need("bankshare:repeated-part:parallel", 150)
   for how in ["setitem", "append", "insert", "delitem", "iadd", "pop",
               "extend"]:
     ctx.need("bankmut:" + how, 30)
